@@ -117,7 +117,7 @@ CHECKS = {
         text=(
             "Machine-checked: C12_swaps_host_independent — whichever of the three process lists make_transcoder builds and whatever the host byte order, channel c of a block has each sample byte-reversed exactly when its SOURCE STREAM's byte order differs from the destination's, "
             "one flag per decoded channel in source order (this is the statement the pinned code violated; fix a59da5e); C12_channels (an accepted transcoder has one output channel per source channel), C12_tail (trailing bytes < 1 frame never reach the output), "
-            "passLoop_flatten (passthrough = whole frames for every block size, in Props/C03). C12_pair / pipeLoop_pair — a left and a right mono stream of F frames each (the stereo pairs of AKAI and Roland) come out as exactly F interleaved frames, frame f = left frame f then right frame f, for every internal block size (induction over the pipeline loop). NOT yet proved: the general statement for interleaved and unequal sources (validated exhaustively by the lattice and the oracle). "
+            "passLoop_flatten (passthrough = whole frames for every block size, in Props/C03). C12_pair / pipeLoop_pair — a left and a right mono stream of F frames each (the stereo pairs of AKAI and Roland) come out as exactly F interleaved frames, frame f = left frame f then right frame f, for every internal block size (induction over the pipeline loop). C12_pair_any / pipeLoop_pair_any — the same two streams with ANY two lengths Fa, Fb: the output starts with the min(Fa,Fb) interleaved frames and holds T frames with min(Fa,Fb) <= T <= max(Fa,Fb), for every internal block size (C12_pair_any_equal: equal lengths give exactly the interleaving). NOT yet proved: sources that are themselves interleaved, or more than two sources (validated exhaustively by the lattice and the oracle). "
             "Tie: exhaustive lattice 1..3 streams x {1,2,3} interleaved channels x width {1,2,4} x byte order per stream x lengths {0..3 frames + partial bytes} x block {1 frame, 2 frames, 4096} x host {LE, BE patched}, every source byte distinct."
         ),
         design_ref="DESIGN.md §4 C12",
